@@ -1322,7 +1322,7 @@ fn main() {
         .collect();
     seed_cases.retain(|i| !flagged.contains(i));
     seed_cases.splice(0..0, flagged.iter().copied());
-    let budget_s = tier.pick(35.0, 600.0);
+    let budget_s = tier.pick(105.0, 600.0) * vcore::budget_scale();
     let t0 = std::time::Instant::now();
     let seed_outs = vcore::par_for(seed_cases.len(), threads, |k| {
         if t0.elapsed().as_secs_f64() > budget_s {
